@@ -87,7 +87,9 @@ def rand_version_string(rng):
 def rand_value(rng, flag):
     f = flag["flag"]
     if flag["values"] and rng.random() < 0.8:
-        return rng.choice(flag["values"])
+        v = rng.choice(flag["values"])
+        k = rng.random()
+        return v.upper() if k < 0.08 else v.capitalize() if k < 0.14 else (v + " ") if k < 0.16 else v
     if f in ("--output-template",):
         if rng.random() < 0.04:
             n = rng.choice([200, 2000, 20000, 30000])
@@ -503,6 +505,16 @@ def run(ctx):
         deep.append((["version", "--source", "none", "--tag-version", "1.0.0", "--schema-ron", "(core: [" + "str(\"a\"), " * min(n, 5000) + "], extra_core: [], build: [])"], None))
         deep.append((["check", "1.0.0-" + "a." * min(n, 30000) + "a"], None))
         deep.append((["render", "1.0+" + "a." * min(n, 4000) + "a", "--output-format", "semver"], None))   # (quadratic in the number of segments: kept small)
+    # enumerated options in other letter cases, and custom ts("%...") schema components with good and malformed strftime strings
+    for sc, flag, vals in (("flow", "--post-mode", ["tag", "commit"]), ("flow", "--pre-release-label", ["alpha", "beta", "rc"]), ("version", "--source", ["none"]),
+                           ("version", "--output-format", ["semver", "pep440", "zerv"]), ("version", "--input-format", ["auto", "semver", "pep440"])):
+        for v in vals:
+            for vv in (v.upper(), v.capitalize(), v[:1].upper() + v[1:].upper()[:1] + v[2:]):
+                deep.append(([sc, "--source", "none", "--tag-version", "1.2.3", "--distance", "2", flag, vv] if flag != "--source" else [sc, "--source", vv, "--tag-version", "1.2.3"], None))
+    for fmt_ in ("%Y", "%Y-%m-%d", "%", "%Y%", "%Q", "%-", "%d.%", "%5", "%:", "%%", "%é", "%Y%m%d%H%M%S%f%z%Z%s", "%c%x%X%+"):
+        sch = '(core: [var(Major), var(ts("%s"))], extra_core: [], build: [var(ts("%s"))])' % (fmt_, fmt_)
+        deep.append((["version", "--source", "none", "--tag-version", "1.2.3", "--bumped-timestamp", "1710511845", "--schema-ron", sch], None))
+        deep.append((["version", "--source", "stdin"], "(schema: %s, vars: (major: Some(1), bumped_timestamp: Some(1710511845), last_timestamp: Some(5), custom: {}))" % sch))
     for (argv, stdin), res in zip(deep, core.pmap(work_deep, [(ctx.bins, a, s_) for a, s_ in deep])):
         ctx.evaluations += 1
         ctx.count("resource_exhaustion_probes")
